@@ -157,9 +157,6 @@ def spec_check(text, toks, tree, k, with_ir=False):
         return "sanity-exception", repr(e), out
     if s:
         return "sanity-disagrees", str(s)[:300], out
-    for line in out.split("\n"):
-        if line != line.rstrip():
-            return "trailing-blank", repr(line), out
     return "ok", "", out
 
 
@@ -223,9 +220,68 @@ class State:
         d[k] = d.get(k, 0) + n
 
 
+def shrink(text, k, verdict, budget_s=8.0):
+    """Delta-debugging: drop lines, then blank-separated words, while the same kind of failure
+    remains (and no known-finding predicate sneaks in)."""
+    t_end = time.time() + budget_s
+    toks0, _ = parse(text)
+    allow_mm = toks0 is not None and has_minus_minus(toks0)
+    allow_doc = toks0 is not None and bool(inline_docs_with_trailing_blanks(toks0))
+
+    def pred(cand):
+        if time.time() > t_end:
+            return False
+        toks, tree = parse(cand)
+        if toks is None:
+            return False
+        if (has_minus_minus(toks) and not allow_mm) or (inline_docs_with_trailing_blanks(toks) and not allow_doc):
+            return False
+        return spec_check(cand, toks, tree, k)[0] == verdict
+    lines = text.split("\n")
+    n = 2
+    while len(lines) >= 2 and time.time() < t_end:
+        chunk = max(1, len(lines) // n)
+        reduced = False
+        for i in range(0, len(lines), chunk):
+            cand = lines[:i] + lines[i + chunk:]
+            if pred("\n".join(cand)):
+                lines, n, reduced = cand, max(n - 1, 2), True
+                break
+        if not reduced:
+            if chunk == 1:
+                break
+            n = min(n * 2, len(lines))
+    text = "\n".join(lines)
+    changed = True
+    while changed and time.time() < t_end:
+        changed = False
+        parts = re.split(r"([ \t]+)", text)
+        for i in range(len(parts)):
+            if not parts[i] or parts[i].isspace():
+                continue
+            cand = "".join(parts[:i] + parts[i + 1:])
+            if cand != text and pred(cand):
+                text, changed = cand, True
+                break
+    return text
+
+
 def report(st, text, k, verdict, detail, key=None):
     if len(st.chk.violations) >= st.max_viol:
         return
+    if verdict in ("exception", "reparse-fail", "tokens-differ", "ir-differs", "not-idempotent",
+                   "sanity-exception", "sanity-disagrees") and len(text) > 80:
+        small = shrink(text, k, verdict)
+        if small != text:
+            toks, tree = parse(small)
+            v2, d2, _ = spec_check(small, toks, tree, k)
+            if v2 == verdict:
+                st.chk.violation("input", {"input": small, "unshrunk_input": text, "indent_width": k,
+                                           "observed": "%s: %s" % (v2, d2),
+                                           "expected": "formatted text parses to the same tokens, second format "
+                                                       "is the identity, self-check returns [], no exception"},
+                                 key=key)
+                return
     st.chk.violation("input", {"input": text, "indent_width": k, "observed": "%s: %s" % (verdict, detail),
                                "expected": "formatted text parses to the same tokens, second format is "
                                            "the identity, self-check returns [], no exception"}, key=key)
@@ -279,14 +335,20 @@ def run_text(st, text, widths, origin, with_ir=True, depth=0):
         ser = serialize(tree, st.pindex)
         if ser is not None:
             st.model_ops.append(("FMT %d %s" % (k, ser), want, text, k))
-    format_emb.format_emboss_parse_tree(tree, format_emb.Config(), used)
+    try:
+        format_emb.format_emboss_parse_tree(tree, format_emb.Config(), used)
+    except Exception:  # noqa: BLE001  (already reported by the oracle above)
+        pass
     st.productions_used |= used
     chk.nontrivial("%s|%s" % (origin.split("+")[0], hash(tuple(sorted(str(p) for p in used)))))
     return True
 
 
 # ----------------------------------------------------------------- streams
+SIMPLE = "struct Foo:\n  0 [+1] UInt x\n  1 [+2] UInt  yy  # c\n"
+
 BOUNDARY = [
+    SIMPLE,
     "", "\n", "\n\n\n", "# only a comment", "# c\n\n\n# d\n", "-- doc\n", "--\n", "--   \n",
     "-- doc\n# c\n", "import \"x\" as y\n", "[a: 1]\n", "[$default b: \"s\"]\n[(cpp) namespace: \"a::b\"]\n",
     "struct Foo:\n  0 [+1] UInt x\n",
@@ -294,6 +356,16 @@ BOUNDARY = [
     "struct Foo:\n\t0 [+1] UInt x\n\t1 [+1] UInt y\n",
     "struct Foo:\n  # only comment before\n  0 [+1] UInt x\n  # trailing comment\nstruct Bar:\n  0 [+1] UInt y\n",
     "struct Foo:\n  let y = 1 - +5\n",
+    # binary minus followed by unary minus, in every position an expression can take
+    "struct Foo:\n  let y = a - -1\n", "struct Foo:\n  let y = -(-x)\n",
+    "struct Foo:\n  0 - -b [+1] UInt x\n", "struct Foo:\n  0 [+4 - -b] UInt x\n",
+    "struct Foo:\n  if x - -1 == 0:\n    0 [+1] UInt y\n", "enum Foo:\n  AA = 1 - -1\n",
+    "struct Foo:\n  0 [+1] UInt x\n    [requires: this - -1 > 0]\n",
+    "struct Foo:\n  0 [+1] UInt:8[4 - -2] x\n", "struct Foo(a: UInt:8):\n  0 [+1] Bar(a - -1) x\n",
+    # trailing blanks in inline documentation / comments
+    "struct Foo:\n  0 [+1] UInt a -- abc   \n  1 [+1] UInt b # c\n",
+    "enum Foo:\n  AA = 1 # abc   \n  BB = 2 -- d\n",
+    "struct Foo:\n  0 [+1] UInt a --   \n  1 [+1] UInt b # c\n",
     "struct Foo:\n  0 [+1] UInt a # abc   \n  1 [+1] UInt b # c\n",
     "enum Foo:\n  AA = 1\n    -- doc\n    [a: 1]\n  BB = 2 -- inline\n",
     "struct Foo:\n  0 [+4] bits:\n    0 [+1] Flag a\n    if a:\n      1 [+1] Flag b\n",
@@ -340,6 +412,69 @@ def generated_stream(st, r, n, nwidths):
     for _ in range(n):
         text, toks = fmtgen.program(r, st.stats)
         run_text(st, text, widths_for(r, st.tier, nwidths), "generated")
+
+
+class Collector:
+    """Stand-in for `Check` inside a worker process: records what the oracle reports."""
+
+    def __init__(self, known):
+        self.known = known
+        self.prop = PROP
+        self.calls = []
+        self.violations = []
+
+    def count(self, n=1):
+        self.calls.append(("count", n))
+
+    def nontrivial(self, key):
+        self.calls.append(("nontrivial", key))
+
+    def known_finding(self, key):
+        for k in self.known:
+            if k.get("property") == PROP and k.get("status") == "open" and k.get("key") == key:
+                return k
+        return None
+
+    def violation(self, kind, detail, key=None, found_input=True):
+        self.violations.append((kind, detail, key, found_input))
+        self.calls.append(("violation", kind, detail, key, found_input))
+
+
+def _worker(args):
+    tag, tier, n, nwidths, known, which, corpus = args
+    col = Collector(known)
+    st = State(col, tier)
+    r = common.rng(tag)
+    if which == "generated":
+        generated_stream(st, r, n, nwidths)
+    else:
+        mutated_stream(st, r, corpus, n, nwidths)
+    return col.calls, st.model_ops, st.stats, st.verdicts, st.productions_used
+
+
+def parallel_stream(st, which, tag, n, nwidths, corpus, workers=3):
+    """Thorough tier: the stream is split over `workers` processes (fork: the front end is
+    already imported), each with its own PRNG derived from VERIF_SEED."""
+    import multiprocessing
+    ctx = multiprocessing.get_context("fork")
+    jobs = [("%s-w%d" % (tag, i), st.tier, n // workers + (1 if i < n % workers else 0), nwidths,
+             st.chk.known, which, corpus) for i in range(workers)]
+    with ctx.Pool(workers) as pool:
+        results = pool.map(_worker, jobs)
+    for calls, ops, stats, verdicts, used in results:
+        for c in calls:
+            if c[0] == "count":
+                st.chk.count(c[1])
+            elif c[0] == "nontrivial":
+                st.chk.nontrivial(c[1])
+            elif c[0] == "violation" and len(st.chk.violations) < st.max_viol:
+                st.chk.violation(c[1], c[2], key=c[3], found_input=c[4])
+        st.model_ops.extend(ops)
+        for k, v in stats.items():
+            st.bump(st.stats, k, v)
+        for k, v in verdicts.items():
+            st.bump(st.verdicts, k, v)
+        st.productions_used |= used
 
 
 def mutated_stream(st, r, corpus, n, nwidths):
@@ -418,8 +553,10 @@ def cli_path(st, r, texts):
         if toks is None:
             continue
         k = r.randrange(1, 9)
-        want = real_format(tree, k)
         verdict = spec_check(text, toks, tree, k)[0]
+        if verdict == "exception":
+            continue            # reported by the streams; nothing to compare the CLI with
+        want = real_format(tree, k)
         ok_expected = verdict == "ok"
         p = os.path.join(d, "cli%d.emb" % n)
         for mode in (["inproc"] + (["subprocess"] if n == 0 else [])):
@@ -497,7 +634,10 @@ def sanity_pairs(r, texts):
         toks, tree = parse(t)
         if toks is None:
             continue
-        f = real_format(tree, r.randrange(1, 9))
+        try:
+            f = real_format(tree, r.randrange(1, 9))
+        except Exception:  # noqa: BLE001
+            continue
         out.append((f, t))
         fl = f.split("\n")
         tl = t.split("\n")
@@ -511,42 +651,45 @@ def sanity_pairs(r, texts):
     return out
 
 
-# ----------------------------------------------------------------- glued terminal pairs (separability evidence)
-def glued_pairs_check(st):
-    """Every terminal pair the Lean side computes as juxtaposable (written to
-    lean/Emboss/Generated by the build? no: listed in Properties/C11 as `allowedGlued`) is
-    checked against the real tokenizer on sample texts: tokenize(a+b) must give [a, b]."""
-    path = os.path.join(common.LEAN, "Emboss", "Spec", "Fmt.lean")
-    try:
-        src = open(path).read()
-    except OSError:
-        return
-    import re
-    m = re.search(r"def allowedGlued : List \(String × String\) := \[(.*?)\n\]", src, re.S)
-    if not m:
-        return
-    pairs = re.findall(r'\("((?:[^"\\]|\\.)*)", "((?:[^"\\]|\\.)*)"\)', m.group(1))
+# ----------------------------------------------------------------- glued terminal pairs (separability)
+def glued_pairs_check(st, model):
+    """Separability obligation.  The driver computes, from the regenerated grammar + handler
+    table, every terminal pair some handler prints with nothing in between (`gluedPairs`,
+    Spec/Fmt.lean) and checks it against the audited list (`gluedOK`).  Here every computed
+    pair (except the known-bad `-` `-`) is tried on the real tokenizer: texts of the two
+    classes, juxtaposed, must tokenize back into exactly the two tokens."""
+    chk = st.chk
+    chk.obligations += 1
+    ok, pairs_line = model.ask(["GLUECHECK", "GLUE"])
+    pairs = [tuple(x.split(" ")) for x in pairs_line.split("\t") if x]
+    st.stats["glued_pairs_computed"] = len(pairs)
     r = common.rng("C11-glue")
     bad = []
     n = 0
-
-    def unq(s):
-        return s.replace('\\"', '"').replace("\\\\", "\\")
     for a, b in pairs:
-        a, b = unq(a), unq(b)
-        for _ in range(6):
+        known_bad = (a, b) == ('"-"', '"-"')
+        for _ in range(8):
             ta, tb = fmtgen.terminal_text(r, a), fmtgen.terminal_text(r, b)
             got = fmtgen.real_stream(ta + tb)
             n += 1
-            if got is None or [x for x in got if x[0] != NL] != [(a, ta), (b, tb)]:
+            split_ok = got is not None and [x for x in got if x[0] != NL] == [(a, ta), (b, tb)]
+            if not split_ok and not known_bad:
                 bad.append((a, b, ta + tb))
                 break
-    st.stats["glued_pairs_listed"] = len(pairs)
     st.stats["glued_pair_samples"] = n
-    if bad:
-        st.chk.violation("correspondence", {
-            "theorem_or_correspondence": "allowedGlued (Spec/Fmt.lean) vs tokenizer.tokenize",
-            "observed": "juxtaposed texts do not split into the two tokens: %r" % bad[:5]}, found_input=False)
+    chk.extra["glue_obligation"] = ok[:300]
+    if ok == "ok" and not bad:
+        chk.discharged += 1
+        chk.theorems.append({"theorem": "gluedOK formatters grammar (compiled checker, op GLUECHECK) + tokenizer "
+                                        "sampling of every computed pair", "axioms": ["Lean compiler"]})
+        return
+    what = "gluedOK: %s; pairs the tokenizer does not split: %r" % (ok[:500], bad[:5])
+    print("separability obligation of C11 no longer holds: " + what)
+    if not search(chk):
+        chk.violation("theorem", {"theorem_or_correspondence": what,
+                                  "note": "a handler now juxtaposes a terminal pair that is not in the audited "
+                                          "list / that the tokenizer does not split; search found no failing input"},
+                      found_input=False)
 
 
 # ----------------------------------------------------------------- search (model-free)
@@ -620,18 +763,23 @@ def run(tier):
     chk.extra["t_corpus_s"] = round(time.time() - t0, 1)
 
     t1 = time.time()
-    generated_stream(st, r, 260 if quick else 5000, 2 if quick else 4)
+    if quick:
+        generated_stream(st, r, 260, 2)
+    else:
+        parallel_stream(st, "generated", "C11-gen", 3000, 4, None)
     chk.extra["t_generated_s"] = round(time.time() - t1, 1)
     t1 = time.time()
-    mutated_stream(st, r, corpus, 100 if quick else 1500, 2 if quick else 3)
+    if quick:
+        mutated_stream(st, r, corpus, 100, 2)
+    else:
+        parallel_stream(st, "mutated", "C11-mut", 900, 3, corpus)
     chk.extra["t_mutated_s"] = round(time.time() - t1, 1)
     t1 = time.time()
     malformed_stream(st, r, 25 if quick else 200)
     chk.extra["t_malformed_s"] = round(time.time() - t1, 1)
     t1 = time.time()
-    cli_path(st, r, [BOUNDARY[12], PINNED[F_MINUS]] + [corpus[r.randrange(len(corpus))][1] for _ in range(6) if corpus]
+    cli_path(st, r, [SIMPLE, PINNED[F_MINUS]] + [corpus[r.randrange(len(corpus))][1] for _ in range(6) if corpus]
              + [fmtgen.program(r, None)[0] for _ in range(6)])
-    glued_pairs_check(st)
     chk.extra["t_cli_s"] = round(time.time() - t1, 1)
     t1 = time.time()
 
@@ -644,6 +792,7 @@ def run(tier):
     # correspondence with the model
     if model_ok:
         model = common.Model("model_c11")
+        glued_pairs_check(st, model)
         sp = sanity_pairs(r, [t for _, t in corpus[:: (8 if quick else 2)]] + BOUNDARY)
         sops = sanity_ops(st, r, sp)
         lines = [op for op, _, _, _ in st.model_ops] + [op for op, _, _ in sops]
@@ -687,8 +836,11 @@ def run(tier):
         chk.extra["tie"] = "byte-identical text, indent widths 1..8"
     chk.extra["generator"] = st.stats
     chk.extra["verdicts"] = st.verdicts
-    for t in BOUNDARY[12:13]:
-        chk.sample({"emb": t, "formatted_indent_3": real_format(parse(t)[1], 3)})
+    for t in [SIMPLE]:
+        try:
+            chk.sample({"emb": t, "formatted_indent_3": real_format(parse(t)[1], 3)})
+        except Exception as e:  # noqa: BLE001
+            chk.sample({"emb": t, "formatted_indent_3": "exception %r" % (e,)})
     chk.assumptions += [
         "idempotence, re-parse and IR equality are decided by the oracle on the real code (sampled), not by a theorem",
         "the theorems are about the model; model = code is sampled byte-for-byte by the correspondence",
